@@ -380,7 +380,13 @@ func runC16(c *core.Ctx) {
 		weights = append(weights, 6) // advance time
 		i := t.Weighted(weights)
 		if i == len(acts) {
-			d := durs[t.Weighted([]int{4, 4, 2, 1, 1})]
+			dw := []int{4, 4, 2, 1, 1}
+			if fd != nil {
+				// under the statement scheduler every request-delay tick of a long wait costs scheduling
+				// steps: the hour (download timeout) is drawn less often
+				dw = []int{16, 16, 8, 4, 1}
+			}
+			d := durs[t.Weighted(dw)]
 			if !faulty {
 				d = delay
 			}
